@@ -12,39 +12,47 @@ from . import c11_gen
 
 PROPS_MODULE = "NessaiVerif.Props.C11"
 F3_KEY = "FlowModel.save_weights:torn-weights-file"
+# residual defects of the weights protocol (the resume returns, but with an untrained flow)
+K_TWO = "FlowModel.save_weights:two-consecutive-killed-saves:untrained-weights-after-resume"
+K_GAP = "FlowModel.save_weights:killed-between-move-and-save:untrained-weights-after-resume"
+K_DRIFT = "FlowModel.load_weights:weights-path-drifted-to-old:untrained-weights-after-resume"
 MANIFEST = dict(
-    text="Lean theorems over a file-system model (path -> absent | complete v | torn k) of the checkpoint protocol: the "
-         "statement lists of safe_file_dump (both save_existing values) and FlowModel.save_weights and the except tuples / "
-         "file order of FlowSampler.check_resume/_resume_from_file and the weights-reload shape of FlowProposal.resume are "
-         "GENERATED from the source with ast on every run (Gen/CrashFS.lean) and the theorems are about these generated "
-         "definitions. Proved for every history (any number of checkpoints in either mode and weight saves, each completed "
-         "or killed at any operation boundary or after any number of bytes of a write, with restarts in between): the "
-         "checkpoint file and its .old are never torn (reachable_wellformed); resume never raises and returns the previous "
-         "or the new checkpoint, or starts afresh when none completed (crash_safe_state, both samplers, provided no weights "
-         "save is killed inside its write); the importance sampler's level_k layout is safe with no proviso "
-         "(ins_levels_safe). For the standard sampler's in-place torch.save the property was FALSE at the pinned commit "
-         "(finding F3, repaired by the fix: commit 82a3f13 — FlowProposal.resume now falls back to '<weights>.old'): "
-         "weights_torn_witness / weights_crash_safe_partial_fails_without prove the counter-example for any reload shape that "
-         "does not catch what torch.load raises on the torn file, weights_crash_safe_partial and weights_old_survives state what "
-         "holds regardless, weights_crash_safe_of_handler proves safety for any resume-side fallback passing "
-         "WeightsHandler.safe, and weights_crash_safe_status re-decides on every run from the GENERATED reload shape which of "
-         "the two holds for the source as it is (today: the safe branch; reverting the fix flips it and the fault-injection "
-         "runs report the torn-weights input). Tie: the real safe_file_dump / BaseNestedSampler.checkpoint / "
-         "FlowModel.save_weights are killed by fault injection (BaseException raised from wrappers on os.path.exists, "
-         "shutil.move, os.replace/rename, open, pickle.dump, torch.save before the j-th operation or after k bytes of a "
-         "write) for every j and a byte ladder (every offset in the thorough tier); after each kill the directory listing "
-         "(absent/complete version/torn size per file) and the executed operation sequence are compared with the model, "
-         "then the real resume path (FlowSampler.check_resume + _resume_from_file with a stand-in BaseNestedSampler subclass; "
-         "the real FlowSampler(resume=True) constructor with real NestedSampler / ImportanceNestedSampler pickles and real "
-         "weights, also in a forked child) is run and its outcome class Fresh/Loaded(v,n)/Raises(type) compared with the "
-         "model's resume; short real runs of both samplers are killed inside real checkpoints / weight saves and continued.",
+    text="Lean theorems over a file-system model (path -> absent | complete v | torn k; bytes written through a handle are "
+         "pending until its close) of the checkpoint protocol: the statement lists of safe_file_dump (both save_existing "
+         "values) and FlowModel.save_weights, the except tuples / file order of FlowSampler.check_resume/_resume_from_file "
+         "and the weights-reload shape of FlowProposal.resume are GENERATED from the source with ast on every run "
+         "(Gen/CrashFS.lean) and the theorems are about these generated definitions. Proved for EVERY history (any number of "
+         "checkpoints in either mode and weight saves, each completed or killed at any operation boundary, after any number "
+         "of bytes of a write, or with any flushed prefix of an unclosed file, with restarts in between), both samplers: the "
+         "checkpoint file and its .old are never torn (reachable_wellformed); resume never raises and the checkpoint VERSION "
+         "it loads is the previous or the new one, or a fresh start when none completed (crash_safe_state; weights_crash_safe "
+         "and ins_levels_safe are its two instances; weights_crash_safe_of_handler gives the reason for any reload shape "
+         "passing WeightsHandler.safe, weights_crash_safe_of_handler_fails_without / weights_torn_witness the counter-example "
+         "for the pre-82a3f13 shape, finding F3, fixed). That conclusion does NOT say which flow weights come back: "
+         "weights_back_partial proves that one weights save killed ANYWHERE (between the move and the save included) from a "
+         "state whose previous save completed comes back with the last completely saved (or the new) weights and records "
+         "model.pt again; weights_path_never_drifts proves for every history that neither the flow nor any checkpoint on disk "
+         "ever records model.pt.old; weights_back_two_kills_witness PROVES that after two consecutive killed saves the code "
+         "as it is resumes with an UNTRAINED flow (known finding, FlowModel.save_weights unchanged); "
+         "weights_back_missing_file_witness / weights_back_path_drift_witness record, against the earlier reload shapes, the "
+         "two defects repaired by e1ff52c / d143089 — all three reproduced "
+         "on the real code by the fault injector. Oracle-only (no theorem): the unpickled object equals the pickled state, "
+         "and sampling can continue (every resumed object is driven on; killed real runs are run to their end). Tie: the "
+         "real safe_file_dump / BaseNestedSampler.checkpoint / FlowModel.save_weights are killed by fault injection "
+         "(BaseException from wrappers on os.path.exists, shutil.move, os.replace/rename, open/close, pickle.dump, torch.save "
+         "before the j-th operation or after k bytes of a write; the kill does not flush user-space buffers) for every j and "
+         "a byte ladder (dense offsets in the thorough tier); after each kill the directory listing, the executed operation "
+         "sequence and the outcome of the real resume path — Fresh / Loaded(checkpoint version, recorded weights path, "
+         "weights version that came back, path now in memory) / Raises(type) — are compared with the model (stand-in "
+         "BaseNestedSampler subclass; real NestedSampler/ImportanceNestedSampler pickles with the real "
+         "FlowSampler(resume=True), also in a forked child; short real runs of both samplers killed and continued).",
     note="Assumed: rename (shutil.move/os.replace within a directory) is atomic; a killed writer leaves a prefix of the bytes; "
          "bytes written through a handle are only on disk once the handle is closed (model: `write` leaves the file pending "
          "under whatever name it has, a kill keeps an arbitrary prefix; injection: the kill does not flush — the on-disk "
          "size is read through the file system at the kill and the file is truncated back to it after unwinding; the real "
-         "pickle.dump runs through the real BufferedWriter); unpickling/torch.load of a prefix "
-         "raises (observed at every ladder offset). pickle/torch byte formats abstracted to complete/torn. Known finding F3 "
-         "(torn model.pt after a kill inside FlowModel.save_weights) is reported, not hidden.",
+         "pickle.dump runs through the real BufferedWriter); unpickling/torch.load of a prefix raises (the class torch.load "
+         "raises is observed and handed to the model as an input). pickle/torch byte formats abstracted to complete/torn. "
+         "Importance-sampler level weights carry no version in the model (only complete/torn).",
     technique="Lean 4 proof (invariant + induction over histories) over source-generated protocol lists + fault-injection "
               "correspondence with the real functions",
     ref="5/C11")
@@ -179,6 +187,39 @@ STD_KW = dict(nlive=20, plot=False, resume_file="ckpt.pkl", signal_handling=Fals
               flow_config=dict(n_blocks=1, n_neurons=4, n_layers=1))
 
 
+def wcode(path):
+    """code of a recorded weights path: 0 none, 1 model.pt, 2 model.pt.old (the model's `primary`)"""
+    if path is None:
+        return 0
+    return 2 if os.path.basename(str(path)).endswith(".old") else 1
+
+
+def weights_back_fail(ctx, layer, out, listing, killed_saves, last_saved, attempted, case):
+    """oracle for WHICH weights come back: a checkpoint that recorded weights must come back with trained ones —
+    the last completely saved version or one whose save was attempted after it"""
+    v, n, w, m = out[1:5]
+    if n == 0:
+        return
+    if w == 0:
+        ws = listing.split(" ")[1][len("w="):].split(",")
+        if n == 2:
+            key, why = K_DRIFT, ("the checkpoint recorded `model.pt.old` (after an earlier fallback FlowModel.load_weights set "
+                                 "weights_file to the .old file), a later save rotated a torn file over it")
+        elif ws[0] == "-" and ws[1].startswith("C"):
+            key, why = K_GAP, ("the process died between the move of model.pt to model.pt.old and torch.save; "
+                               "FlowProposal.resume skips the reload when model.pt is missing although .old is complete")
+        elif killed_saves >= 2:
+            key, why = K_TWO, ("two consecutive weights saves were killed: the second moved the torn model.pt over the good "
+                               "model.pt.old before being killed itself, reload and fallback both failed and were swallowed")
+        else:
+            key, why = f"FlowProposal.resume:untrained-weights-after-resume:{layer}", "no weights were reloaded"
+        ctx.oracle_fail(key, f"resume loaded checkpoint {v} (which recorded flow weights) but the flow came back UNTRAINED: "
+                        f"{why} (directory: {listing})", case)
+    elif w is not True and w not in [last_saved] + attempted:
+        ctx.oracle_fail("resume:stale-weights", f"resume came back with weights version {w}, neither the last completely saved "
+                        f"({last_saved}) nor a later attempted one {attempted} (directory: {listing})", case)
+
+
 def exc_letter(e):
     """what torch.load raised on a torn file -> the model's input letter"""
     if isinstance(e, EOFError):
@@ -274,9 +315,9 @@ class StubBackend(Backend):
         try:
             if self.shell.check_resume("ckpt.pkl", None):
                 obj = self.shell._resume_from_file(Stub, "ckpt.pkl", self.model, None, None)
-                out = ("loaded", int(obj.iteration), 0)
+                out = ("loaded", int(obj.iteration), 0, 0, 0)
                 if obj.payload != payload_for(obj.iteration, len(obj.payload)) or not obj.resumed:
-                    out = ("loaded-corrupt", int(obj.iteration), 0)
+                    out = ("loaded-corrupt", int(obj.iteration), 0, 0, 0)
             else:
                 obj = self.fresh()
                 out = ("fresh",)
@@ -302,14 +343,22 @@ class StdBackend(Backend):
         super().__init__("std")
 
     def pickle_n(self, obj):
-        return int(getattr(obj._flow_proposal, "weights_file", None) is not None)
+        return wcode(getattr(obj._flow_proposal, "weights_file", None))
 
     def _construct(self):
         FlowSampler = nessai_bits()["FlowSampler"]
         fs = FlowSampler(nessai_bits()["Gauss"](), output=self.dir, resume=True, **STD_KW)
         ns = fs.ns
         if ns.resumed:
-            return ("loaded", int(ns.iteration), int(ns._flow_proposal.weights_file is not None)), ns
+            fp = ns._flow_proposal
+            m = wcode(fp.flow.weights_file)          # what the flow actually loaded (None: nothing -> untrained)
+            w = 0
+            if m:
+                sd = fp.flow.model.state_dict()
+                key = _cache.get("stamp_key")
+                t = sd[key] if key in sd else next(iter(sd.values()))
+                w = int(round(float(t.detach().flatten()[0])))
+            return ("loaded", int(ns.iteration), wcode(fp.weights_file), w, m), ns
         return ("fresh",), ns
 
     def start(self):
@@ -342,7 +391,7 @@ class StdBackend(Backend):
         self.cur.checkpoint(periodic=True, force=True, save_existing=se)
 
     def ckpt_n(self):
-        return int(self.cur._flow_proposal.flow.weights_file is not None)
+        return wcode(self.cur._flow_proposal.flow.weights_file)
 
     def train(self, w):
         import torch
@@ -436,7 +485,7 @@ def fmt_outcome(out):
     if out[0] == "fresh":
         return "fresh"
     if out[0] == "loaded":
-        return f"loaded:{out[1]}:{out[2]}"
+        return ":".join(["loaded"] + [str(int(x)) for x in out[1:5]])
     if out[0] == "raises":
         return f"raises:{out[1]}"
     return ":".join(str(x) for x in out)
@@ -445,6 +494,7 @@ def fmt_outcome(out):
 def oracle_scripted(ctx, layer, steps, case):
     """the property, evaluated on what the REAL code did (independent of the Lean model)"""
     allowed = [None]
+    last_saved, attempted, killed_saves = 0, [], 0
     for st in steps:
         ev = st["ev"]
         if ev is None or st.get("error"):
@@ -452,6 +502,12 @@ def oracle_scripted(ctx, layer, steps, case):
             return
         if ev["t"] == "c":
             allowed = ([ev["v"]] + allowed) if st["crashed"] else [ev["v"]]
+        else:
+            if st["crashed"]:
+                attempted.append(ev["w"])
+                killed_saves += 1
+            else:
+                last_saved, attempted, killed_saves = ev["w"], [], 0
         ck = st["listing"].split(" ")[0][len("ckpt="):].split(",")
         if ck[0].startswith("T") or ck[1].startswith("T"):
             ctx.oracle_fail("safe_file_dump:torn-checkpoint-file",
@@ -488,6 +544,8 @@ def oracle_scripted(ctx, layer, steps, case):
                 else:
                     ctx.oracle_fail("resume:loaded-unexpected-version",
                                     f"resume loaded version {out[1]}, neither the previous nor the new checkpoint {allowed}", case)
+            if layer == "std":
+                weights_back_fail(ctx, layer, out, st["listing"], killed_saves, last_saved, attempted, case)
         else:
             ctx.oracle_fail("resume:loaded-corrupt-state", f"resume returned a damaged state: {out}", case)
 
@@ -788,9 +846,11 @@ class RealRun:
             return ("fresh",), fs
         if self.ins:
             n = int(ns.proposal.flow.n_models)
-        else:
-            n = int(ns._flow_proposal.weights_file is not None)
-        return ("loaded", int(ns.iteration), n), fs
+            return ("loaded", int(ns.iteration), n, 0, n), fs
+        fp = ns._flow_proposal
+        m = wcode(fp.flow.weights_file)
+        # real trainings cannot be stamped with a version: w is only "some weights were loaded" (1) or none (0)
+        return ("loaded", int(ns.iteration), wcode(fp.weights_file), int(bool(m)), m), fs
 
     def resume(self, child=True):
         self.child = None
@@ -813,7 +873,7 @@ class RealRun:
         if self.ins:
             n = len(data.proposal.flow.models) if getattr(data.proposal, "flow", None) is not None else 0
         else:
-            n = int(getattr(getattr(data._flow_proposal, "flow", None), "weights_file", None) is not None)
+            n = wcode(getattr(getattr(data._flow_proposal, "flow", None), "weights_file", None))
         return dict(v=int(data.iteration), n=int(n))
 
     def pickle_desc(self, path):
@@ -825,7 +885,7 @@ class RealRun:
             if self.ins:
                 n = int(obj.proposal.flow._resume_n_models)
             else:
-                n = int(getattr(obj._flow_proposal, "weights_file", None) is not None)
+                n = wcode(getattr(obj._flow_proposal, "weights_file", None))
             return f"C{int(obj.iteration)}.{n}"
         except Exception:  # noqa
             return f"T{len(data)}"
@@ -907,6 +967,7 @@ class RealRun:
 def oracle_run(ctx, rr, segs, case):
     layer = "ins-run" if rr.ins else "std-run"
     allowed = [None]
+    killed_saves = 0
     seen = 0
     for seg in segs:
         if seg.get("error"):
@@ -916,6 +977,8 @@ def oracle_run(ctx, rr, segs, case):
             f = tok.split(":")
             if f[0] == "c":
                 allowed = [int(f[2])] if f[5] == "-" else [int(f[2])] + allowed
+            else:
+                killed_saves = 0 if f[4] == "-" else killed_saves + 1
         seen = len(seg["toks"])
         ck = seg["listing"].split(" ")[0][len("ckpt="):].split(",")
         if ck[0].startswith("T") or ck[1].startswith("T"):
@@ -948,6 +1011,9 @@ def oracle_run(ctx, rr, segs, case):
                                 f"{out[1]} instead of {allowed} ({seg['listing']})", case)
             else:
                 ctx.oracle_fail("resume:loaded-unexpected-version", f"loaded {out[1]}, allowed {allowed}", case)
+        if out[0] == "loaded" and not rr.ins:
+            weights_back_fail(ctx, layer, (out[0], out[1], out[2], True if out[3] else 0, out[4]), seg["listing"],
+                              killed_saves, None, [], case)
     if segs and not segs[-1]["killed"] and not segs[-1].get("finished"):
         ctx.oracle_fail(f"{layer}:cannot-continue", "sampling could not continue after the resume", case)
 
@@ -971,9 +1037,14 @@ def compare_run(ctx, rr, segs, case):
         if mlist != seg["listing"]:
             ctx.disagree("real run: directory listing differs from the model's file system",
                          {"line": line, "model": mlist, "impl": seg["listing"], "case": case})
-        if seg["killed"] and mparts.get("out") != fmt_outcome(seg["outcome"]):
+        mout = mparts.get("out") or ""
+        if mout.startswith("loaded:") and not rr.ins:
+            f = mout.split(":")
+            f[3] = str(int(f[3] != "0"))       # weights versions of real trainings are not comparable: loaded or not
+            mout = ":".join(f)
+        if seg["killed"] and mout != fmt_outcome(seg["outcome"]):
             ctx.disagree("real run: outcome of FlowSampler(resume=True) differs from the model's resume",
-                         {"line": line, "model": mparts.get("out"), "impl": fmt_outcome(seg["outcome"]), "case": case})
+                         {"line": line, "model": mout, "impl": fmt_outcome(seg["outcome"]), "case": case})
 
 
 def real_run_case(ctx, ins, seed, se_ckpt, max_it, targets):
@@ -1003,7 +1074,8 @@ def correspond(ctx):
     ctx.rule = ("a case = one history driven through the REAL code: completed checkpoints (either save_existing mode) / "
                 "weight saves, then a kill before operation j or after k bytes of a write, real resume, possibly more events; "
                 "layers: stub (BaseNestedSampler stand-in: checkpoint -> safe_file_dump, FlowSampler.check_resume/_resume_from_file), "
-                "std (real NestedSampler+FlowProposal+FlowModel, real FlowSampler(resume=True)), state (hand-made directory states), "
+                "std (real NestedSampler+FlowProposal+FlowModel, real FlowSampler(resume=True); the outcome includes which weights "
+                "version came back and which weights path is recorded), state (hand-made directory states), "
                 "ins-run / std-run (real sampler runs killed inside real checkpoints / weight saves and continued); "
                 "non-trivial = at least one checkpoint completed before the kill, or the kill is inside a write")
     ctx.assume("shutil.move / os.replace / os.rename within one directory are atomic (POSIX rename)",
